@@ -74,10 +74,17 @@ theorem atx_open_no_panic : type_of% @GM.Props.C02a.atx_open_noPanic := @GM.Prop
 /-- The whole block phase (parseBlocks / openBlocks / closeBlocks with the ten block parsers, as modelled in
     GM.Model.Blocks and tied to the real parser by the `blocks` correspondence) terminates for EVERY byte string:
     neither line loop needs more than (number of newlines + 3) iterations and the container retry loop never
-    exceeds its bound. (That the model's explicit Go-panic outcome is unreachable is stated as
-    `GM.Props.Blocks.NoPanic` and not yet proved; no panic was seen on 17.8M sources.) -/
+    exceeds its bound. -/
 theorem block_phase_terminates : type_of% @GM.Props.Blocks.parseBlocks_fuel_suffices := @GM.Props.Blocks.parseBlocks_fuel_suffices
 theorem block_phase_outcome : type_of% @GM.Props.Blocks.parseBlocks_outcome := @GM.Props.Blocks.parseBlocks_outcome
+
+/-- The whole block phase returns a block tree for EVERY byte string: no Go run-time panic (index, slice, nil,
+    type assertion, explicit) is reachable in parseBlocks / openBlocks / closeBlocks or in Open / Continue / Close of
+    the ten default block parsers, and the BlockParser contract ("Open must advance the reader") is kept at every
+    `goto retry` (the model's contract monitor never fires). Invariant proof over the model GM.Model.Blocks. -/
+theorem block_phase_no_panic : type_of% @GM.Props.Blocks.no_panic := @GM.Props.Blocks.no_panic
+theorem block_phase_never_errs : type_of% @GM.Props.Blocks.run_never_errs := @GM.Props.Blocks.run_never_errs
+theorem block_phase_contract_kept : type_of% @GM.Props.Blocks.monitor_never_fires := @GM.Props.Blocks.monitor_never_fires
 
 /-- The delimiter-processing loop of the INLINE PHASE (emphasis matching over the delimiter list, as modelled in
     GM.Model.Inlines and tied to the real parser by the `inlines` correspondence) terminates without a Go panic
